@@ -6,7 +6,9 @@
 (* attribute (none, or a literal described by its structure) and an        *)
 (* argument list form.                                                     *)
 (*   lit = [pre, post : BOOLEAN,          text before / after              *)
-(*          nph  : 1..2,                  a second placeholder `{1}`       *)
+(*          nph  : 0..2,                  0: text only ("ab", or with      *)
+(*                                        escapes when post: "a{{b}}");   *)
+(*                                        2: a second placeholder `{1}`    *)
 (*          ref  : "next","pos0","pos1","pos2","name_field","name_other",  *)
 (*          ty   : one of the 11 format types,                             *)
 (*          mod  : "none","ws" (`{x }`),"colon" (`{x:}`),"colon_ws"        *)
@@ -45,7 +47,8 @@ AllUsed(lit, args) ==
 \* the second placeholder is `{1}`: needs a second argument
 SecondOk(lit, args) == lit.nph = 2 => NArgs(args) = 2
 
-RustcAccepts(lit, args) == Denotes(lit, args) # "error" /\ AllUsed(lit, args) /\ SecondOk(lit, args)
+RustcAccepts(lit, args) == IF lit.nph = 0 THEN args = "none"          \* nothing refers to an argument
+                           ELSE Denotes(lit, args) # "error" /\ AllUsed(lit, args) /\ SecondOk(lit, args)
 
 \* spellings of "no modifier at all": nothing, trailing whitespace, an empty format spec, both
 Blank == {"none", "ws", "colon", "colon_ws"}
